@@ -3,7 +3,8 @@
     (gcrypto/simplecommonmessagesignatureproof.go); see design/C13.md for what each means. *)
 From Coq Require Import List NArith ZArith Bool Permutation.
 From GV Require Import Base.Ints Gen.KeyID Model.SimpleProofBase Model.SimpleProof Monitors.C13m
-  Proofs.SimpleProof Proofs.SimpleMerge Proofs.SimpleInv Proofs.SimpleRoundtrip.
+  Proofs.SimpleProof Proofs.SimpleMerge Proofs.SimpleInv Proofs.SimpleRoundtrip
+  Proofs.SimpleFinalize.
 Import ListNotations.
 Local Open Scope N_scope.
 
@@ -72,6 +73,42 @@ Theorem C13_validate_finalized_total : forall f hashes,
   f_keys f <> [] -> exists r, validate_finalized f hashes = Ok r.
 Proof. exact validate_finalized_total. Qed.
 Print Assumptions C13_validate_finalized_total.
+
+(** finalize_validate_roundtrip (simple scheme): for ANY number of rest proofs over the main proof's
+    candidate keys and key hash, with pairwise different messages and block hashes, any key-set size up
+    to 65536 (the two-byte key id) and any signer sets: ValidateFinalizedProof(Finalize(main, rest))
+    never panics, accepts, and returns EXACTLY the per-block signer bit sets the proofs held, in order;
+    the uniqueness flag is [pairwise_disjoint] of those sets. *)
+Theorem C13_simple_finalize_validate_roundtrip : forall main rest hashes,
+  Inv main -> rest_wf main rest ->
+  p_keys main <> [] -> N.of_nat (List.length (p_keys main)) <= 65536 ->
+  NoDup (map p_msg (main :: rest)) ->
+  NoDup (map (fun r => hash_get hashes (p_msg r)) (main :: rest)) ->
+  validate_finalized (finalize main rest) hashes =
+  Ok (Some (map (out_item hashes) (main :: rest)), pairwise_disjoint (map p_bits (main :: rest))).
+Proof. exact simple_finalize_validate_roundtrip. Qed.
+Print Assumptions C13_simple_finalize_validate_roundtrip.
+
+(** ... with double signers reported: the flag is false exactly when two blocks share a signer bit. *)
+Theorem C13_simple_finalize_reports_double_signers : forall main rest hashes,
+  Inv main -> rest_wf main rest ->
+  p_keys main <> [] -> N.of_nat (List.length (p_keys main)) <= 65536 ->
+  NoDup (map p_msg (main :: rest)) ->
+  NoDup (map (fun r => hash_get hashes (p_msg r)) (main :: rest)) ->
+  exists out u, validate_finalized (finalize main rest) hashes = Ok (Some out, u) /\
+    (u = false <->
+     exists i j a b, (i < j)%nat /\ nth_error (map p_bits (main :: rest)) i = Some a /\
+       nth_error (map p_bits (main :: rest)) j = Some b /\ N.land a b <> 0).
+Proof. exact simple_finalize_reports_double_signers. Qed.
+Print Assumptions C13_simple_finalize_reports_double_signers.
+
+(** the hypotheses are satisfiable (two rest proofs, one double signer) and the concrete results. *)
+Theorem C13_simple_finalize_example :
+  validate_finalized (finalize ex_main [ex_r1]) ex_hashes = Ok (Some [([101], 5); ([102], 2)], true) /\
+  validate_finalized (finalize ex_main [ex_r1; ex_r2]) ex_hashes =
+    Ok (Some [([101], 5); ([102], 2); ([103], 4)], false).
+Proof. exact ex_roundtrip. Qed.
+Print Assumptions C13_simple_finalize_example.
 
 Theorem C13_has_sparse_key_id_spec : forall p id,
   has_sparse_key_id p id =
